@@ -500,14 +500,14 @@ def run_loop_slice(eng, contract, d, st, fr, result):
         body_node = n['inner'][7] if n['kind'] == 'CXXForRangeStmt' else n['inner'][-1]
         def outer_vars(x, acc):
             if not isinstance(x, dict) or x is body_node: return
-            if x.get('kind') in ('VarDecl',) and x.get('name') and not x['name'].startswith('__'): acc.append(x)
+            if x.get('kind') in ('VarDecl', 'BindingDecl') and x.get('name') and not x['name'].startswith('__'): acc.append(x)
             if x.get('kind') == 'LambdaExpr': return
             for c in x.get('inner', []): outer_vars(c, acc)
         acc = []
         outer_vars(eng.ast.body_of(d), acc)
         for vd in acc:
-            if vd['id'] in st.env: continue
-            fake = {'kind': 'DeclRefExpr', 'referencedDecl': {'id': vd['id'], 'kind': 'VarDecl', 'name': vd.get('name'), 'type': vd['type']}}
+            if vd['id'] in st.env or 'type' not in vd: continue
+            fake = {'kind': 'DeclRefExpr', 'referencedDecl': {'id': vd['id'], 'kind': vd['kind'], 'name': vd.get('name'), 'type': vd['type']}}
             try: eng.ev_DeclRefExpr(fake, st, fr)
             except Unsupported: pass
         if n['kind'] == 'CXXForRangeStmt':
@@ -517,6 +517,22 @@ def run_loop_slice(eng, contract, d, st, fr, result):
             cont = eng.ev(rinit, st, fr)
             var = inner[6]['inner'][0]; vt = TY.of_node(var)
             eng.var_names[var['id']] = var.get('name')
+            if isinstance(cont, ObjLV) and cont.ty.kind == 'flist':
+                # an arbitrary member of the list (multiset model): any value whose multiplicity is at least one
+                ety = cont.ty.args[0]
+                if not ety.is_scalar(): raise Unsupported('slice over a list of %r' % (ety,))
+                m = eng.fresh('slice.member', I)
+                cnt = eng.harr(st, 'flist.count', z3.ArraySort(I, z3.ArraySort(I, I)))
+                st.pc.append(z3.Select(z3.Select(cnt, cont.ref), m) >= 1)
+                st.env[var['id']] = Ptr(m, eng.ptr_cls(ety)) if ety.kind == 'ptr' else m
+                result['slice_member'] = m; result['slice_container'] = cont
+                body = inner[7]
+                result['slice_pre'] = st.clone()
+                if contract.pre:
+                    C0 = Ctx(eng, d, result.get('args', {}), fr.this, result['slice_pre'])
+                    for (nm, g) in contract.pre(C0): st.pc.append(g)
+                    result['slice_pre'] = st.clone()
+                return eng.exec_stmt(body, st, fr)
             if not (isinstance(cont, ObjLV) and cont.ty.kind == 'vector'): raise Unsupported('slice over %r' % (cont,))
             i = eng.fresh('slice.i', I)
             st.pc.append(z3.And(i >= 0, i < eng.vec_len(st, cont.ref)))
